@@ -2,6 +2,7 @@ package verifsim
 
 import (
 	"fmt"
+	"strings"
 	"time"
 )
 
@@ -12,6 +13,9 @@ func isTaskBlock(b string) bool { return b == "before" || b == "cmd" || b == "af
 
 func (e *integEngine) taskSucceeded(name string) (bool, bool) {
 	// returns (known, success)
+	if e.cli {
+		return false, false // task and stage objects live inside the application
+	}
 	for _, d := range e.drivers {
 		if d.Spec.Kind == "task" && d.Spec.Target == name {
 			if !d.Returned {
@@ -63,8 +67,9 @@ func (e *integEngine) checkC12(x *integExpect) {
 		}
 	}
 	c.Counters[fmt.Sprintf("c12_cancel_with_%d_task_commands_running", running)]++
-	// (5) nothing starts once cancellation has completed
-	if tRet >= 0 {
+	// (5) nothing starts once cancellation has completed (not observable through the CLI: abort()
+	// only closes a channel, the cancellation itself runs in goroutines of the application)
+	if tRet >= 0 && !e.cli {
 		for _, r := range e.execs {
 			if r.StartSeq > tRet && !(r.Info.Block == "down") {
 				c.Violate("C12", "start-after-cancel", "command %s started (seq %d) after Cancel had returned (seq %d)", r.Info.Key, r.StartSeq, tRet)
@@ -115,6 +120,30 @@ func (e *integEngine) checkC12(x *integExpect) {
 			c.Violate("C12", "success-after-cancel", "task %s reports success although it was interrupted or did not run completely (interrupted=%v, commands run %d of %d, model failed=%v)", t.Name, interrupted, ncmd, wantCmd, want.Failed)
 		} else {
 			c.Count("c12_tasks_completed_despite_cancel")
+		}
+	}
+	if e.cli {
+		interrupted := ""
+		for _, r := range e.execs {
+			if r.CtxDoneSeq >= 0 && isTaskBlock(r.Info.Block) && r.Info.Block != "after" && !strings.HasPrefix(r.Info.Owner, "ctx:") {
+				// the task reports the error; a stage with allow_failure legitimately absorbs it
+				allowed := false
+				for _, g := range e.w.AllGraphs() {
+					for _, st := range g.Stages {
+						if e.stageTask(st) == r.Info.Owner && st.Allow {
+							allowed = true
+						}
+					}
+				}
+				if !allowed {
+					interrupted = r.Info.Key
+				}
+			}
+		}
+		for _, d := range e.drivers {
+			if d.Spec.Kind == "cli" && d.Returned && interrupted != "" && d.Err == nil {
+				c.Violate("C12", "cli-success-after-cancel", "taskctl %v returned no error although command %s was interrupted by the cancellation", e.w.CLIArgs, interrupted)
+			}
 		}
 	}
 	// every released driver returned (checked by the loop's stuck detector); C03: nothing left Running
